@@ -312,16 +312,18 @@ def c15_d(ctx: Ctx):
         copies = [c for st in lp.body for c in walk_no_nested(st) if isinstance(c, ast.Call) and isinstance(c.func, ast.Name) and c.func.id in ("copy", "copytree")]
         for c in copies:
             facts = common.facts_at(ctx, sjw, c, "n")
-            ex = [t for (t, pol) in facts if not pol and "exclude" in t and "re.match" in t]
+            ex = [t for (t, pol) in facts if not pol and "exclude" in t]
             k2 = f"{SJW}|exclude-before:{canon(lp.iter).split('.')[-1]}:{c.func.id}"
             if ex:
-                out.append(ctx.ok(R, sjw, c, "copy is reached only for names that match no exclude pattern", construct=k2))
-            else:
-                ex2 = [t for (t, pol) in facts if "exclude" in t]
-                if ex2:
-                    out.append(ctx.inc(R, sjw, c, f"exclude test has an unrecognised shape: {ex2[0][:60]}", construct=k2))
+                verdict, msg = common.exclude_predicate_verdict(ctx, sjw, ex[0], canon(lp.target))
+                if verdict == "ok":
+                    out.append(ctx.ok(R, sjw, c, "copy is reached only for names that match no exclude pattern; " + msg, construct=k2))
+                elif verdict == "viol":
+                    out.append(ctx.viol(R, sjw, c, msg, construct=k2))
                 else:
-                    out.append(ctx.viol(R, sjw, c, "a file is copied without testing the exclude patterns", construct=k2))
+                    out.append(ctx.inc(R, sjw, c, msg + ": " + ex[0][:60], construct=k2))
+            else:
+                out.append(ctx.viol(R, sjw, c, "a file is copied without testing the exclude patterns", construct=k2))
     # clone branch and exclude (known gap)
     clone_calls = [n for n in body_nodes(inner) if isinstance(n, ast.Call) and "signac.project:Project.clone" in common.targets_of(ctx, inner, n)]
     for c in clone_calls:
